@@ -43,6 +43,21 @@ def flat(v, pre=()):
     return [[list(pre), enc.tag(v)]]
 
 
+def _as_date(k):
+    """Entry keys of the law's files are dates; a key that only LOOKS like a date (a quoted string, a datetime) still dates
+    an entry of the law, so it is read as one (the implementation silently skips such keys)."""
+    if isinstance(k, datetime.datetime):
+        return k.date()
+    if isinstance(k, datetime.date):
+        return k
+    if isinstance(k, str):
+        try:
+            return datetime.date.fromisoformat(k.strip())
+        except ValueError:
+            return None
+    return None
+
+
 def export_raw(yaml_dir=None, groups=None):
     import yaml
     from _gettsim.config import INTERNAL_PARAMS_GROUPS, RESOURCE_DIR
@@ -57,8 +72,9 @@ def export_raw(yaml_dir=None, groups=None):
             if p == "rounding":
                 continue
             entries = []
-            for k, e in body.items():
-                if isinstance(k, datetime.date):
+            for k0, e in body.items():
+                k = _as_date(k0)
+                if k is not None and isinstance(e, dict):
                     ent = {"day": k.toordinal(), "dev": e.get("deviation_from", "") if isinstance(e, dict) else "", "scalar": "", "vals": []}
                     if "scalar" in e:
                         ent["scalar"] = enc.tag(e["scalar"])
@@ -81,9 +97,9 @@ def export_raw(yaml_dir=None, groups=None):
                     "name": fn,
                     "entries": sorted(
                         [
-                            {"day": k.toordinal(), "flat": flat({kk: vv for kk, vv in e.items() if kk not in ("note", "reference")})}
+                            {"day": _as_date(k).toordinal(), "flat": flat({kk: vv for kk, vv in e.items() if kk not in ("note", "reference")})}
                             for k, e in body.items()
-                            if isinstance(k, datetime.date)
+                            if _as_date(k) is not None and isinstance(e, dict)
                         ],
                         key=lambda x: x["day"],
                     ),
